@@ -22,6 +22,18 @@ TraceBernoulli ==
           <<"C20.bernoulli_count_is_floor_np", e.exc # "" \/ e.random \/
                (e.ones = want \/ (OnGrid(e.n, e.a) /\ e.ones = want - 1))>>}))
 
+(* p a hair below / above a/PD (by 1e-12 .. 1e-10: far beyond rounding, far less than 1/n): the    *)
+(* count is floor(n p) - one less than n a / PD when that is an integer and p is below              *)
+TraceBernoulliNear ==
+  /\ IsEvent("bernoulli_near")
+  /\ LET e == Log[l]
+         base == BernoulliCount(e.n, e.a)
+         want == IF e.side = "below" /\ OnGrid(e.n, e.a) THEN base - 1 ELSE base
+     IN Report(e, Failing({
+          <<"C20.raised", e.exc = "">>,
+          <<"C20.bernoulli_shape_and_values", e.exc # "" \/ (e.len = e.n /\ e.binary)>>,
+          <<"C20.bernoulli_count_is_floor_np", e.exc # "" \/ e.ones = want>>}))
+
 TraceCorrelated ==
   /\ IsEvent("correlated")
   /\ LET e == Log[l]
@@ -70,7 +82,7 @@ TraceFromMetrics ==
           <<"C20.sample_splits_n_scores", e.exc # "" \/
                (e.sample_total = e.sample_n /\ e.sample_sc = e.sc)>>}))
 
-Next == TraceBernoulli \/ TraceCorrelated \/ TraceNormal \/ TraceFromMetrics
+Next == TraceBernoulli \/ TraceCorrelated \/ TraceNormal \/ TraceFromMetrics \/ TraceBernoulliNear
 Spec == Init /\ [][Next]_vars
 AllConsumed == TLCGet("stats").diameter - 1 = Len(Log)
 =============================================================================
